@@ -9,6 +9,50 @@ ROOT = os.path.dirname(os.path.dirname(os.path.abspath(__file__)))
 
 # id -> (category, technique, level text, level note, design ref)
 CHECKS = {
+    'C05': ('exploration', 'fixed universe C/C++ corpus x curated profiles (listed exceptions) + Hypothesis-generated C programs; fixed-point '
+            'oracle f(f(x)) == f(x), f^3 == f^2, --check passes; second-pass acceptance for random configs',
+            'Every C / C++ corpus file under the built-in default and the curated profiles in /verif/profiles (thorough: the whole '
+            'universe, quick: default + 2 seeded profiles) must be a fixed point after one pass - the second and third pass reproduce the '
+            'first byte for byte and --check passes - with the 65 known unstable (profile, file) pairs listed one by one; generated C '
+            'programs in calm layouts are pushed through histories of length 3 under the profiles; for random whitespace / mod_ configs '
+            'the second pass must accept the first pass\'s output.',
+            'freebsd, amxmodx and sun are not claimed; kr-indent, linux-indent and linux are claimed over the corpus universe only; known '
+            'root-cause families (continuation-line drift, trailing-comment gap, multi-line comment drift) are matched by the kind of line '
+            'that differs.', 'DESIGN.md §3 C05'),
+    'C07': ('exploration', 'generated region contents x marker kinds x insertion points in generated and corpus programs; round-trip oracle on '
+            'region lines + metamorphic opacity oracle (swap region content, compare the outside)',
+            'One to three disabled regions with generated content (unbalanced brackets and quotes, comment openers, tabs, trailing blanks, '
+            'non-ASCII, runs of empty lines) are inserted before statement lines of generated C programs and corpus files of six '
+            'languages, at file start, unterminated at EOF, or around a whole corpus file, with default / configured / regex / asm markers; '
+            'the lines between the markers must come out byte-identical (whitespace-only lines emptied) and replacing the content must '
+            'leave the bytes before and after the region unchanged, under whitespace, blank-line and mod_ options.',
+            'Markers are located by a tag inside the marker comment; \'$\' and \'#\' are kept out of the random alphabet (known findings '
+            'K4-K6, replayed from regress/); several baseline weaknesses are ledgered by class (edge blank lines, suffix dependence).',
+            'DESIGN.md §3 C07'),
+    'C08': ('exploration', 'every corpus file + generated programs re-encoded LF / CRLF / CR / mixed x newlines setting; metamorphic '
+            'commutation laws + terminator census of the output',
+            'For every corpus file (normalised to LF) and generated C programs, ten executions check: no foreign CR/LF under '
+            'newlines=lf|crlf|cr, f(x, crlf|cr) equals f(x, lf) with the terminator substituted, f(conv(x), lf) equals f(x, lf) for CRLF, '
+            'CR and per-line mixed conversions, auto reproduces a uniform input\'s terminator and the clear majority of a mixed one.',
+            'Conversions convert every line break, also inside comments, continuations and literals; UTF-16 inputs are left to C09; the '
+            'majority law is asserted only for a margin above 25 % of all breaks.', 'DESIGN.md §3 C08'),
+    'C17': ('exploration', 'corpus (also with re-randomised line-leading / trailing whitespace) + generated programs x tab / end-of-file '
+            'options; validity predicate on raw output lines outside comment / literal / disabled spans',
+            'Outputs of all corpus files, of the same files with trailing blanks, tab-after-space and blank lines holding blanks injected, '
+            'and of generated C programs in random layouts are scanned line by line: no trailing blank outside comments / literals / '
+            'disabled regions, file end per nl_end_of_file(_min), spaces only in the indentation for indent_with_tabs=0, no space before '
+            'a tab for 1|2, preprocessor lines judged with pp_indent_with_tabs.',
+            'Exempt spans come from re-tokenising the output and, for the C family, from the independent lexer; UTF-16 outputs are '
+            'skipped; indent_cmt_with_tabs is drawn only together with indent_with_tabs=2 (its documented precondition).',
+            'DESIGN.md §3 C17'),
+    'C20': ('exploration', 'corpus + generated programs with 0..6 blank lines injected at line boundaries x nl_max / start- / end-of-file / '
+            'eat_blanks options (+ an enumerated matrix); validity predicate on runs of line breaks',
+            'With blank lines injected at random line boundaries and file edges, the output may hold no run longer than nl_max between two '
+            'code lines, must open and close with the number of breaks nl_start_of_file / nl_end_of_file (_min) determine (remove 0, force '
+            'exactly min, add at least min) and must have no blank line after an opening / before a closing brace under eat_blanks_*; a '
+            'matrix nl_max 0..6 x 4 values x minima x edge counts is enumerated on a carrier.',
+            'Blank-line count options are clamped to nl_max (the statement\'s proviso) and stay at default when eat_blanks_* is judged; '
+            'exempt spans as in C17.', 'DESIGN.md §3 C20'),
     'C02': ('exploration', 'corpus universe x seeded whitespace configs + line-level mutants + Hypothesis-generated C programs (layout engine); '
             'round-trip oracle through an independent lexer and through the hook-dumped tokenizer view',
             'Every corpus file of all nine languages under the default and seeded whitespace-only configs, a single-option sweep of the '
